@@ -204,6 +204,62 @@ def dep_rules(chk):
                               key='%s %s %s' % (R, fn, a))
 
 
+def cbc_padding_range(chk):
+    """TLS 1.0+ CBC padding (RFC 5246 6.2.3.2): every padding byte equals the padding length.  The constant-time check walks the
+    whole window in which padding can lie, [min_len, max_len) *as used for the range test of pad_len*; those two variables are
+    narrowed later (MAC extraction), so the loop must use the values of that first stage."""
+    R = 'cbc-padding-checked-in-full'
+    src = 'src/ssl/ssl_rec_cbc.c'
+    u = build.load_unit(src)
+    F = irf.Units({'u': u}).func('cbc_decrypt')
+    if F is None:
+        raise AnalysisBroken('cbc_decrypt vanished')
+    from .. import sym
+    names = sym.var_names(F)
+
+    def nm(o, depth=0):
+        if o['k'] not in ('i', 'a'):
+            return None
+        n_ = names.get((o['k'], o['v']))
+        if n_ is None and o['k'] == 'i' and depth < 3 and F.insts[o['v']]['op'] in ('zext', 'sext', 'trunc'):
+            return nm(F.insts[o['v']]['ops'][0], depth + 1)
+        return n_
+    les = [c for c in F.calls('GT') if nm(c['ops'][0]) == 'pad_len']      # LE(x, y) is the macro NOT(GT(x, y))
+    inst = 'cbc_decrypt: the padding-content loop runs over [min_len, max_len) of the pad_len range test'
+    if len(les) != 1:
+        chk.violation(R, inst, F.where(), 'expected one LE(pad_len, max_len - min_len) test (a GT call), found %d' % len(les), key='%s le' % R)
+        return
+    rng = F.strip_casts(les[0]['ops'][1])
+    if rng['k'] != 'i' or F.insts[rng['v']]['op'] != 'sub':
+        raise AnalysisBroken('cbc_decrypt: range operand of LE is not a subtraction')
+    A, B = F.insts[rng['v']]['ops']            # max_len, min_len
+    eqs = [c for c in F.calls('EQ') if nm(c['ops'][1]) == 'pad_len' and F.block_of[c['id']] in F.loops_blocks()]
+    if len(eqs) != 1:
+        chk.violation(R, inst, F.where(), 'expected one EQ(buf[u], pad_len) inside a loop, found %d' % len(eqs), key='%s eq' % R)
+        return
+    # the induction variable: the index of buf[u]
+    ld = F.strip_casts(eqs[0]['ops'][0])
+    uvar = None
+    if ld['k'] == 'i' and F.insts[ld['v']]['op'] == 'load':
+        g = F.strip_casts(F.insts[ld['v']]['ops'][0])
+        if g['k'] == 'i' and F.insts[g['v']]['op'] == 'getelementptr' and F.insts[g['v']].get('var'):
+            uvar = F.strip_casts(F.insts[g['v']]['var'][0][0])
+    if uvar is None or uvar['k'] != 'i' or F.insts[uvar['v']]['op'] != 'phi':
+        raise AnalysisBroken('cbc_decrypt: induction variable of the padding loop not recognised')
+    ph = F.insts[uvar['v']]
+    init = [o for o, inb in zip(ph['ops'], ph['inb']) if not (o['k'] == 'i' and F.insts[o['v']]['op'] == 'add')]
+    bound = None
+    for i in F.insts.values():
+        if i['op'] == 'icmp' and i['pred'] in ('ult', 'ne') and F.strip_casts(i['ops'][0]) == uvar:
+            bound = F.strip_casts(i['ops'][1])
+    okk = len(init) == 1 and F.strip_casts(init[0]) == F.strip_casts(B) and bound == F.strip_casts(A)
+    if okk:
+        chk.ok(R, inst, F.where(eqs[0]))
+    else:
+        chk.violation(R, inst, F.where(eqs[0]), 'the loop runs from %s to %s, the range test uses min_len = %s, max_len = %s: padding bytes outside the loop are never '
+                      'compared with the padding length' % (init, bound, B, A), key='%s range' % R)
+
+
 def run(tier):
     chk = report.Check('C02', tier,
                        'Static necessary conditions of "no forged, replayed or reordered record is delivered": in each of the 4 decrypt methods every '
@@ -223,6 +279,7 @@ def run(tier):
            rule='decrypt-verdict-conjunct'),
     ])
     engine_rules(chk)
+    cbc_padding_range(chk)
     length_gates(chk)
     ordering(chk)
     dep_rules(chk)
